@@ -121,6 +121,15 @@ void Body(Tape& t, Outcome& o) {
     auto c1 = MakeCanon(g, true), c2 = MakeCanon(g2, true);
     if (!SameCanon(c1, c2, o, "64")) return;
     if (m2.GetTolerance() < m.GetTolerance()) { o.fail("roundtrip:tolerance-shrank", verif::fmt("%.17g -> %.17g", m.GetTolerance(), m2.GetTolerance())); return; }
+    if (m2.NumTri() == m.NumTri() && m2.NumVert() < m.NumVert()) {
+      // known finding F16: RefineToLength/RefineToTolerance on a tangent-bearing mesh can strand a vertex that no
+      // triangle references; the import drops exactly those vertices
+      std::vector<char> used(g.NumVert(), 0);
+      for (auto v : g.triVerts) if (size_t(v) < used.size()) used[v] = 1;
+      size_t stranded = 0;
+      for (char u : used) stranded += !u;
+      if (stranded > 0 && m.NumVert() - m2.NumVert() == stranded && o.desc.str().find("RefineTo") != std::string::npos) { o.known("F16-refine-stranded-vertex", "roundtrip:counts-stranded-vertex", verif::fmt("export has %zu vertices referenced by no triangle; NumVert %zu->%zu", stranded, m.NumVert(), m2.NumVert())); return; }
+    }
     if (m2.NumVert() != m.NumVert() || m2.NumTri() != m.NumTri()) { o.fail("roundtrip:counts", verif::fmt("NumVert %zu->%zu NumTri %zu->%zu", m.NumVert(), m2.NumVert(), m.NumTri(), m2.NumTri())); return; }
     // same surface under refinement (tangents survive the trip)
     if (m.NumTri() <= 800) {
